@@ -219,6 +219,9 @@ def run_unit(u, scratch, want_trace=True):
             r["reason"] = "extraction break: splice identity check failed"
             return r
         r["spliced_loops"] = n
+        # a loop_invariant_step obligation is expected only if the function under
+        # contract itself carries spliced loops (other functions of the file are dropped)
+        r["expect_loopstep"] = (u.enforce is None) or any(k[0] == u.enforce and k[2] for k in keys)
     gb = os.path.join(d, "u.gb")
     gbi = os.path.join(d, "u.i.gb")
     # further /repo files needed by the unit are separate translation units:
@@ -410,7 +413,7 @@ def run_unit(u, scratch, want_trace=True):
         r["reason"] = "vacuity guard: zero obligations"
     elif reach_hit < u.reach:
         r["reason"] = "vacuity guard: only %d of %d reachability points satisfiable" % (reach_hit, u.reach)
-    elif u.loops and r["spliced_loops"] and loopstep == 0:
+    elif u.loops and r["spliced_loops"] and r.get("expect_loopstep", True) and loopstep == 0:
         r["reason"] = "vacuity guard: loop contracts spliced but no loop_invariant_step obligation"
     elif failed:
         r["verdict"] = "REFUTED"
